@@ -1650,6 +1650,339 @@ fn arith_long(rng: &mut Rng) -> String {
     s
 }
 
+
+// ------------------------------------------------------------------------------------------------
+// CUT family: truncation / preview / padding of a COMPONENT at a fixed BYTE offset
+// ------------------------------------------------------------------------------------------------
+/// the constants a preview / truncation / padding is plausibly cut at (`&s[..s.len().min(N)]`, `s.truncate(N)`, `split_at(N)`)
+pub const CUT_N: [usize; 18] = [8, 10, 16, 20, 24, 32, 40, 48, 50, 60, 64, 80, 100, 120, 128, 200, 255, 256];
+/// a 2-, 3- and 4-byte character, all alphabetic (an identifier-like run stays one component wherever Unicode letters are accepted)
+const CUT_CH: [&str; 3] = ["\u{e9}", "\u{65e5}", "\u{20000}"];
+/// longest component: a run that covers every offset up to 256 + 3
+const CUT_LONG: usize = 262;
+/// a component of at least `len` (at most `len + 3`) bytes: `k` ASCII bytes followed by a run of `w`-byte characters — char boundaries
+/// lie at k, k + w, k + 2w, …, so a cut at byte N is inside a character unless (N - k) % w == 0; two consecutive `k` with w = 4 leave no
+/// offset on a boundary in both. `rev`: the run first, the ASCII bytes behind it (cuts counted from the END of the component).
+fn straddle(w: usize, k: usize, len: usize, rev: bool) -> String {
+    let n = (len.saturating_sub(k) + w - 1) / w;
+    let run = CUT_CH[w - 2].repeat(n.max(1));
+    let a = &"abcd"[..k];
+    if rev { format!("{}{}", run, a) } else { format!("{}{}", a, run) }
+}
+/// the thirteen shapes: (w, k, rev)
+const CUT_SHAPES: [(usize, usize, bool); 13] = [
+    (4, 0, false), (4, 1, false), (4, 2, false), (4, 3, false), (3, 0, false), (3, 1, false), (3, 2, false), (2, 0, false), (2, 1, false),
+    (4, 1, true), (4, 2, true), (3, 1, true), (2, 1, true),
+];
+/// byte ranges of the ARGUMENT-like components: the (trimmed) inside of every bracket pair `( ) [ ] { }` outside string literals, each of
+/// its top-level comma-separated pieces, every (trimmed) line, the text behind the first `:` of a line (directive values: `goal: …`,
+/// `import: …`, `max-depth: …`), the pieces of the whole text at top-level commas, and the whole text
+fn group_slots(s: &str) -> Vec<(usize, usize)> {
+    let b = s.as_bytes();
+    let lits = literal_slots(s);
+    let in_lit = |i: usize| lits.iter().any(|(a, z)| *a <= i && i < *z);
+    let trim = |a: usize, z: usize| -> (usize, usize) {
+        let t = &s[a..z];
+        let l = t.len() - t.trim_start().len();
+        let r = t.trim_end().len();
+        if r <= l { (a, a) } else { (a + l, a + r) }
+    };
+    let mut v: Vec<(usize, usize)> = Vec::new();
+    // (open index, start of the current comma piece)
+    let mut stack: Vec<(usize, usize)> = vec![(usize::MAX, 0)];
+    for i in 0..b.len() {
+        if in_lit(i) {
+            continue;
+        }
+        match b[i] {
+            b'(' | b'[' | b'{' => stack.push((i, i + 1)),
+            b',' => {
+                let top = stack.last_mut().unwrap();
+                v.push(trim(top.1, i));
+                top.1 = i + 1;
+            }
+            b')' | b']' | b'}' if stack.len() > 1 => {
+                let (o, p) = stack.pop().unwrap();
+                v.push(trim(p, i));
+                v.push(trim(o + 1, i));
+            }
+            _ => {}
+        }
+    }
+    v.push(trim(stack[0].1, b.len()));
+    v.push(trim(0, b.len()));
+    let mut a = 0;
+    for line in s.split_inclusive('\n') {
+        let z = a + line.len();
+        v.push(trim(a, z));
+        if let Some(c) = line.find(':') {
+            v.push(trim(a + c + 1, z));
+        }
+        a = z;
+    }
+    v.retain(|(a, z)| z > a);
+    v.sort();
+    v.dedup();
+    v
+}
+/// the text the GRL parser sees for a case of entry `e` (None: the entry does not reach the GRL parser)
+fn grl_text(e: &str, s: &str) -> Option<String> {
+    let w = |p: (&str, &str)| Some(format!("{}{}{}", p.0, s, p.1));
+    match e {
+        "R" | "M" | "PU" => Some(s.to_string()),
+        "W" | "WT" => w(WRAP_W),
+        "RV" => w(WRAP_RV),
+        "RA" => w(WRAP_RA),
+        "PN" => w(WRAP_PN),
+        "AC" => w(WRAP_AC),
+        "AT" => w(WRAP_AT),
+        "WF" => w(WRAP_WF),
+        "WG" => w(WRAP_WG),
+        "FN" => w(WRAP_FN),
+        "FA" => w(WRAP_FA),
+        "MA" => w(WRAP_MA),
+        "IM" => w(WRAP_IM),
+        "MC" => Some(format!("{}{}", s, WRAP_MC)),
+        _ => None,
+    }
+}
+/// F-C05h: an estimate (upper bound, in bytes) of (0) the longest piece of text the superlinear leaf regexes of `parse_single_condition`
+/// have to chew without matching and (1) the longest leaf, over all `when` leaves of `s` as `parse_when_clause` cuts them (outer balanced
+/// parentheses, `||` / `&&` at parenthesis depth 0, `!`, `exists(`, `forall(`). String-literal bodies are masked by the parser (a few
+/// bytes); a leaf `accumulate(…)` goes to parse_accumulate_condition (no leaf regex); in a leaf `<ASCII path> <op> <anything>`,
+/// `name(<no parenthesis>) <op> …` or `test(name(<no parenthesis>))` only the part in front is searched, `(.+)` / `[^)]*` take the rest
+/// (quadratic with a small constant: 262 bytes 10 ms, 130 bytes 2 ms) — measured: a 100-byte field / function NAME 40..120 ms, a
+/// 300-byte tail behind `test(f(a))` or inside `$T : Car( … )` 250 ms.
+fn when_cost(s: &str) -> (usize, usize) {
+    let Some(w) = s.find("when") else { return (0, 0) };
+    let tail = &s[w + 4..];
+    let mut m = String::new();
+    let mut last = 0;
+    for (a, z) in literal_slots(tail) {
+        m.push_str(&tail[last..a]);
+        m.push('L');
+        last = z;
+    }
+    m.push_str(&tail[last..]);
+    let mut acc = (0usize, 0usize);
+    for clause in m.split(|c| c == '}' || c == ';').flat_map(|c| c.split("then")) {
+        leaf_cost(clause, &mut acc, 0);
+    }
+    acc
+}
+fn balanced(t: &str) -> bool {
+    let mut d = 0i64;
+    for c in t.chars() {
+        if c == '(' {
+            d += 1;
+        } else if c == ')' {
+            d -= 1;
+            if d < 0 {
+                return false;
+            }
+        }
+    }
+    d == 0
+}
+fn split_depth0<'a>(t: &'a str, op: &str) -> Vec<&'a str> {
+    let mut v = Vec::new();
+    let (mut d, mut a, mut i) = (0i64, 0usize, 0usize);
+    let b = t.as_bytes();
+    while i < b.len() {
+        if b[i] == b'(' {
+            d += 1;
+        } else if b[i] == b')' {
+            d -= 1;
+        } else if d == 0 && b[i..].starts_with(op.as_bytes()) {
+            v.push(&t[a..i]);
+            i += op.len();
+            a = i;
+            continue;
+        }
+        i += 1;
+    }
+    v.push(&t[a..]);
+    v
+}
+fn leaf_cost(clause: &str, acc: &mut (usize, usize), depth: usize) {
+    let t = clause.trim();
+    if t.is_empty() {
+        return;
+    }
+    if depth < 40 {
+        if t.starts_with('(') && t.ends_with(')') && t.len() >= 2 && balanced(&t[1..t.len() - 1]) {
+            return leaf_cost(&t[1..t.len() - 1], acc, depth + 1);
+        }
+        for op in ["||", "&&"] {
+            let parts = split_depth0(t, op);
+            if parts.len() > 1 {
+                for p in parts {
+                    leaf_cost(p, acc, depth + 1);
+                }
+                return;
+            }
+        }
+        if let Some(r) = t.strip_prefix('!') {
+            return leaf_cost(r, acc, depth + 1);
+        }
+        for kw in ["exists(", "forall("] {
+            if t.starts_with(kw) && t.ends_with(')') {
+                return leaf_cost(&t[kw.len()..t.len() - 1], acc, depth + 1);
+            }
+        }
+    }
+    if t.starts_with("accumulate(") {
+        return;
+    }
+    acc.1 = acc.1.max(t.len());
+    let l = if t.starts_with('(') && t.ends_with(')') && t.len() >= 2 { t[1..t.len() - 1].trim() } else { t };
+    let ascii_name = |x: &str| !x.is_empty() && x.bytes().all(|c| c.is_ascii_alphanumeric() || c == b'_' || c == b'.') && !x.as_bytes()[0].is_ascii_digit();
+    let ops = [">=", "<=", "==", "!=", ">", "<", " contains ", " startsWith ", " endsWith ", " matches ", " in "];
+    // name(<no parenthesis>) <op> …   /   test(name(<no parenthesis>))
+    let call = |x: &str| -> Option<(usize, usize)> {
+        let o = x.find('(')?;
+        let c = o + x[o..].find(')')?;
+        if ascii_name(x[..o].trim()) && !x[o + 1..c].contains('(') { Some((o, c)) } else { None }
+    };
+    let front = if let Some(inner) = l.strip_prefix("test(").and_then(|x| x.strip_suffix(')')) {
+        match call(inner) {
+            Some((o, c)) if c + 1 == inner.len() => o + 5,
+            _ => l.len(),
+        }
+    } else if let Some((o, c)) = call(l) {
+        let r = l[c + 1..].trim_start();
+        if ops.iter().any(|p| r.starts_with(p.trim_start())) { o } else { l.len() }
+    } else {
+        match ops.iter().filter_map(|o| l.find(o)).min() {
+            Some(p) if p > 0 && l[..p].bytes().all(|c| c.is_ascii_alphanumeric() || b"_. +-*/%".contains(&c)) && !l.as_bytes()[0].is_ascii_digit() && l.as_bytes()[0] != b' ' => p,
+            _ => l.len(),
+        }
+    };
+    acc.0 = acc.0.max(front);
+}
+/// longest not-matching leaf text the family lets through (about 10 ms per case at this length) and longest leaf at all
+const CUT_LEAF_MAX: usize = 48;
+const CUT_LEAF_LEN: usize = 150;
+/// a "long" component for the places where 262 bytes cost too much (covers every offset up to 128 + 3)
+const CUT_LONG2: usize = 132;
+/// extra valid inputs for the third group of entries (no structured-mutation bases of their own)
+fn cut_bases_for(e: &str) -> Vec<String> {
+    let v = |xs: &[&str]| xs.iter().map(|x| x.to_string()).collect::<Vec<_>>();
+    match e {
+        "WT" => bases_for("W"),
+        "NV" => v(&VALID_MISC[5..8]),
+        "FA" | "MA" => v(&["1, \"a b\", A.b + 1", "x", "$v, [1, 2], 'q'"]),
+        "IM" => v(&["A (rules * (templates t))", "MAIN (rules *)", "A"]),
+        _ => bases_for(e),
+    }
+}
+/// (WT parses the same text as W)
+const CUT_ENTRIES: [&str; 35] = [
+    "X", "Q", "QV", "V", "D", "DC", "G", "GQ", "A", "NH", "NP", "NV", "RV", "RA", "S", "SJ", "SC", "SD", "SW", "SS", "ST", "PU", "PN", "AC", "MC", "AT",
+    "WF", "WG", "FN", "FA", "MA", "IM", "W", "R", "M",
+];
+/// THE CUT FAMILY. For every entry and every COMPONENT of each of its valid inputs — every identifier / keyword / function / variable /
+/// module name, every string-literal body (rule name, attribute strings, stream names, values), every number, the inside of every bracket
+/// pair and each of its comma-separated pieces (each argument of function calls / accumulate / stream windows / import specs / arrays),
+/// every line, every directive value behind a `:`, the whole input — the component is REPLACED by (well-formed name, or a call without its
+/// parentheses: the error path), PRECEDED by and FOLLOWED by (`sum($amount)<run>`: the error path "missing ')'") a long component in which
+/// a 2-, 3- or 4-byte character lies across every byte offset: `k` ASCII bytes + a run of w-byte characters (w = 4: k = 0..3, w = 3:
+/// k = 0..2, w = 2: k = 0..1) and the run followed by ASCII bytes (offsets counted from the end). Lengths: 262 bytes (covers every offset
+/// up to 256 + 3 at once) and N + 1 .. N + 4 for each of the 18 constants N of CUT_N (a component only just longer than the cut, for
+/// code that rejects longer ones earlier). The rest of the input stays valid, so the component is reached. Kernel entries (microseconds
+/// per case) get every shape; entries that parse a rule per case get, per component, the two shapes (4, k), (4, k + 1) that leave no
+/// offset on a boundary in both, in all three modes, plus rotating others; whole rules a rotating selection. A case whose text would put
+/// more than CUT_LEAF_MAX bytes in front of the leaf regexes is left out (F-C05h) — there the family covers N <= 40 only.
+fn cut_family(out: &mut Vec<String>) {
+    let mut rot = 0usize;
+    for e in CUT_ENTRIES {
+        let slow = grl_text(e, "").is_some();
+        for b in cut_bases_for(e) {
+            // a rule / a query block per case (milliseconds): a rotating selection
+            let whole = (WHOLE.contains(&e) && b.contains("rule")) || e == "G" || e == "GQ";
+            let mut slots = ident_slots(&b);
+            slots.extend(literal_slots(&b));
+            slots.extend(digit_slots(&b));
+            slots.extend(group_slots(&b));
+            slots.retain(|(a, z)| z > a);
+            slots.sort();
+            slots.dedup();
+            for sl in slots {
+                rot += 1;
+                // (mode, shape, length); the medium lengths in mode 0 take the `k` that puts byte N of the component in the middle of a character
+                let mid = |n: usize| (4usize, (n + 2) % 4, false);
+                let mut v: Vec<(usize, (usize, usize, bool), usize)> = Vec::new();
+                if whole {
+                    // parse_rules / GRLQueryParser::parse see every component, their twins (parse_with_modules, parse_rule, parse_queries) every fourth
+                    if !(e == "R" || e == "G") && rot % 4 != (if e == "PU" { 2 } else { 0 }) {
+                        continue;
+                    }
+                    let k = rot % 4;
+                    let n = CUT_N[rot % CUT_N.len()];
+                    v.push((rot % 3, (4, k, false), CUT_LONG));
+                    v.push(((rot + 1) % 3, (4, (k + 1) % 4, false), CUT_LONG));
+                    v.push((0, mid(n), n + 1));
+                    v.push((1 + rot % 2, (4, (k + 1) % 4, false), n + 1));
+                } else if slow {
+                    let k = rot % 4;
+                    for mode in 0..3 {
+                        v.push((mode, (4, k, false), CUT_LONG));
+                        v.push((mode, (4, (k + 1) % 4, false), CUT_LONG));
+                        v.push((mode, CUT_SHAPES[4 + (rot + mode * 3) % 9], CUT_LONG));
+                    }
+                    for (i, n) in CUT_N.iter().enumerate() {
+                        v.push((0, mid(*n), n + 1));
+                        if (rot + i) % 3 == 0 {
+                            v.push((1 + (rot + i) % 2, (4, (k + i) % 4, false), n + 1));
+                        }
+                    }
+                } else {
+                    for mode in 0..3 {
+                        for sh in CUT_SHAPES {
+                            v.push((mode, sh, CUT_LONG));
+                        }
+                    }
+                    let k = rot % 4;
+                    for (i, n) in CUT_N.iter().enumerate() {
+                        v.push((0, mid(*n), n + 1));
+                        v.push((0, (4, (n + 3) % 4, false), n + 1));
+                        v.push((0, CUT_SHAPES[4 + (rot + i) % 5], n + 1));
+                        v.push((1 + (rot + i) % 2, (4, (k + i) % 4, false), n + 1));
+                    }
+                }
+                for (mode, (w, k, rev), len) in v {
+                    let mk = |len: usize| {
+                        let c = straddle(w, k, len, rev);
+                        match mode {
+                            0 => subst(&b, sl, &c),
+                            1 => ins(&b, sl.0, &c),
+                            _ => ins(&b, sl.1, &c),
+                        }
+                    };
+                    let fits = |t: &str| match grl_text(e, t) {
+                        Some(full) => {
+                            let (front, leaf) = when_cost(&full);
+                            front <= CUT_LEAF_MAX && leaf <= CUT_LEAF_LEN
+                        }
+                        None => true,
+                    };
+                    let mut t = mk(len);
+                    if !fits(&t) {
+                        if len != CUT_LONG {
+                            continue;
+                        }
+                        t = mk(CUT_LONG2);
+                        if !fits(&t) {
+                            continue;
+                        }
+                    }
+                    out.push(mk_case(e, &t));
+                }
+            }
+        }
+    }
+}
+
 fn gen(rng: &mut Rng, n: usize, _tier: &str) -> Vec<String> {
     let mut out = Vec::new();
     // exhaustive short strings over a tiny alphabet for the two most hazardous slicing kernels
@@ -1826,6 +2159,8 @@ fn gen(rng: &mut Rng, n: usize, _tier: &str) -> Vec<String> {
         out.push(mk_case(e, &s));
     }
     gen3(rng, &mut out);
+    // fixed count, no randomness, after every older stream (their cases stay unchanged)
+    cut_family(&mut out);
     out
 }
 
@@ -2161,6 +2496,58 @@ fn main() {
             println!("# evaluate_expression / find_operator: a sign right behind a leading exponent letter (look-behind two bytes)");
             for v in ["e+1", "E-1", "e-1", " e+1", "1e+1", "1e-0", "e+", "-e-1", "(e+1)", "xe-1"] {
                 println!("{}", mk_case("V", v));
+            }
+        }
+        Some("corpus4") => {
+            // the lines of corpus/C05/cut_offsets.case
+            println!("# C05 corpus: a COMPONENT longer than a plausible preview / truncation constant (8 .. 256) in which a multi-byte character lies");
+            println!("# across that byte offset (printed by `c05 corpus4`); every line yields ok/err on the unchanged tree. A preview of a component");
+            println!("# (`&s[..s.len().min(40)]`, `truncate(40)`) must be cut at a char boundary. Seeded change C05-11: parse_accumulate_function.");
+            let f = "total of all the amounts of that order \u{e9}quip\u{e9}e en s\u{e9}rie";
+            let acc = format!("Order($amount: amount, status == \"completed\"), {}", f);
+            println!("{}", mk_case("AC", &acc));
+            println!("{}", mk_case("W", &format!("accumulate({})", acc)));
+            let rule = format!("rule \"BigSpender\" salience 10 {{\n    when\n        accumulate({})\n    then\n        log(\"big spender\");\n}}\n", acc);
+            for e in ["R", "M", "PU"] {
+                println!("{}", mk_case(e, &rule));
+            }
+            println!("# the second argument of accumulate: a call without parentheses / with a tail behind `)` / a long name, k ASCII bytes + a run of 4-, 3-, 2-byte characters");
+            for n in CUT_N {
+                let k = (n + 2) % 4;
+                println!("{}", mk_case("AC", &format!("Order($a: a), {}", straddle(4, k, n + 1, false))));
+                println!("{}", mk_case("AC", &format!("Order($a: a), sum($a){}", straddle(3, (n + 1) % 3, n + 1, false))));
+                println!("{}", mk_case("AC", &format!("Order($a: a), {}($a)", straddle(2, (n + 1) % 2, n + 1, false))));
+            }
+            println!("# other components: pattern type, bound variable, field, condition, rule name, attribute string, value, function name, argument, module, import");
+            for (e, a, z) in [
+                ("AC", "", "($a: a), sum($a)"), ("AC", "Order($", ": a), sum($a)"), ("AC", "Order($a: ", "), sum($a)"), ("AC", "Order($a: a, ", " == 1), sum($a)"),
+                ("PN", "", ""), ("AT", "agenda-group \"", "\" no-loop"), ("AT", "salience 5 ", ""), ("RV", "", ""), ("RV", "\"", "\""), ("RA", "", " + 1"),
+                ("FN", "", "(\"a\")"), ("FN", "Log(\"", "\")"), ("FA", "1, ", ", 2"), ("MC", ";; MODULE: ", " - x\n"), ("IM", "", " (rules *)"), ("IM", "A (rules ", ")"),
+                ("WF", "", "=v"), ("WF", "k=", ""), ("G", "query \"", "\" {\n goal: X == 1\n}"), ("G", "query \"Q\" {\n goal: ", "\n}"), ("G", "query \"Q\" {\n goal: X == 1\n strategy: ", "\n}"),
+                ("A", "", "(?x) WHERE p(?x)"), ("A", "sum(?", ") WHERE p(?x)"), ("A", "sum(?x) WHERE ", "(?x)"), ("S", "", ": T from stream(\"s\")"), ("S", "e: ", " from stream(\"s\")"),
+                ("S", "e: T from stream(\"", "\")"), ("S", "e: T from stream(\"s\") over window(5 ", ", sliding)"), ("X", "", " == 1"), ("X", "A == \"", "\""), ("Q", "NOT ", " == true"),
+                ("V", "", " + 1"), ("D", "(", " OR b(?x))"), ("NP", "g(?x) WHERE (p(?x) WHERE ", "(?y))"), ("NV", "p(?", ")"), ("SC", "a.", " == b.c"), ("SD", "5 ", ""),
+            ] {
+                for (w, k) in [(4usize, 2usize), (4, 3), (3, 1), (2, 1)] {
+                    println!("{}", mk_case(e, &format!("{}{}{}", a, straddle(w, k, if grl_text(e, "").is_some() && e != "AC" && e != "PN" { 44 } else { CUT_LONG }, false), z)));
+                }
+            }
+        }
+        Some("cutfam") => {
+            // c05 cutfam [time]  — the cases of the CUT family; with `time`: `<micros> <case>` per case (generator tuning aid)
+            let mut v = Vec::new();
+            cut_family(&mut v);
+            let timed = args.get(2).map(|s| s == "time").unwrap_or(false);
+            std::panic::set_hook(Box::new(|_| {}));
+            for c in v {
+                if timed {
+                    let t0 = std::time::Instant::now();
+                    let c2 = c.clone();
+                    let r = std::panic::catch_unwind(move || exec(&c2)).unwrap_or_else(|_| "panic".into());
+                    println!("{} {} {}", t0.elapsed().as_micros(), r.split(' ').next().unwrap_or("?"), c);
+                } else {
+                    println!("{}", c);
+                }
             }
         }
         Some("one") => {
